@@ -13,6 +13,7 @@ import (
 
 	"github.com/q191201771/lal/pkg/base"
 	"github.com/q191201771/lal/pkg/sdp"
+	"github.com/q191201771/naza/pkg/nazaatomic"
 	"github.com/q191201771/naza/pkg/nazaerrors"
 	"github.com/q191201771/naza/pkg/nazanet"
 )
@@ -40,8 +41,9 @@ type PullSession struct {
 	cmdSession    *ClientCommandSession
 	baseInSession *BaseInSession
 
-	disposeOnce sync.Once
-	waitChan    chan error
+	disposeOnce  sync.Once
+	disposedFlag nazaatomic.Bool
+	waitChan     chan error
 }
 
 type ModPullSessionOption func(option *PullSessionOption)
@@ -217,6 +219,13 @@ func (session *PullSession) OnConnectResult() {
 // OnDescribeResponse callback by ClientCommandSession
 func (session *PullSession) OnDescribeResponse(sdpCtx sdp.LogicContext) {
 	session.onDescribeResponse()
+	// The callback is where the upper layer takes the session or turns it down, and it turns it down by disposing it
+	// (logic.Group does when the stream got another input, or the pull was stopped, while we were connecting).  A
+	// session that has been turned down must not hand its sdp to the observer: that is the upper layer again, and
+	// the stream it would describe belongs to somebody else.
+	if session.disposedFlag.Load() {
+		return
+	}
 	session.baseInSession.InitWithSdp(sdpCtx)
 }
 
@@ -254,6 +263,7 @@ func (session *PullSession) WriteInterleavedPacket(packet []byte, channel int) e
 func (session *PullSession) dispose(err error) error {
 	var retErr error
 	session.disposeOnce.Do(func() {
+		session.disposedFlag.Store(true)
 		Log.Infof("[%s] lifecycle dispose rtsp PullSession. session=%p", session.UniqueKey(), session)
 		e1 := session.cmdSession.Dispose()
 		e2 := session.baseInSession.Dispose()
